@@ -46,6 +46,9 @@ class CriticalPathCalculator:
         self.__tasks: Dict[Any, Task] = {}
         self.__end_date = end_date
 
+        tasks = [t for t in tasks]
+        self.__scope = set(id(t) for t in tasks)
+
         for t in tasks:
             if end_date is not None:
                 if t.end == end_date:
@@ -57,6 +60,9 @@ class CriticalPathCalculator:
         if len(task.children) > 0:
             return
 
+        if id(task) not in self.__scope:
+            return
+
         if task.id in self.__tasks:
             return
 
@@ -64,6 +70,8 @@ class CriticalPathCalculator:
 
         p_ids = []
         for p in task.predecessors:
+            if id(p) not in self.__scope:
+                continue
             p_ids.append(p.id)
             self.__insert_task(p)
 
